@@ -19,6 +19,7 @@ PRELUDE = r'''
 #include <fstream>
 #include <iostream>
 #include <sstream>
+#include <cstdlib>
 #include <type_traits>
 #include <new>
 using namespace Vector::BLF;
@@ -134,6 +135,19 @@ int main(int argc, char ** argv) {
                 unsigned short hs; unsigned int os; memcpy(&hs, &f.buf[4], 2); memcpy(&os, &f.buf[8], 4);
                 jnum(js, "wire_headerSize", hs, first); jnum(js, "wire_objectSize", os, first);
             }
+        } else if (cmd == "hexwrite") {
+            /* translation validation: emit the bytes of write() */
+            MemFile g2; obj->write(g2);
+            printf("W %zu ", g2.buf.size()); for (unsigned char c : g2.buf) printf("%02x", c); printf(" os=%u hs=%u calc=%u\n", obj->objectSize, obj->headerSize, obj->calculateObjectSize());
+        } else if (cmd == "image") {
+            /* translation validation: decode the given image with read(), report, re-encode */
+            std::string hex; is >> hex; MemFile in;
+            for (size_t i = 0; i + 1 < hex.size(); i += 2) in.buf.push_back((char)strtol(hex.substr(i, 2).c_str(), nullptr, 16));
+            ObjectHeaderBase * y = make(cls); int exc = 0;
+            try { y->read(in); } catch (Vector::BLF::Exception &) { exc = 1; } catch (std::exception &) { exc = 2; }
+            printf("R g=%ld good=%d exc=%d os=%u hs=%u type=%u\n", (long)in.g, in.good() ? 1 : 0, exc, y->objectSize, y->headerSize, (unsigned)y->objectType);
+            if (!exc) { MemFile out; y->write(out); printf("W %zu ", out.buf.size()); for (unsigned char c : out.buf) printf("%02x", c); printf(" os=%u hs=%u calc=%u\n", y->objectSize, y->headerSize, y->calculateObjectSize()); }
+            delete y;
         } else if (cmd == "roundtrip") {
             /* write obj, read it back into a fresh object of the class the factory picks */
             obj->write(f);
